@@ -345,6 +345,49 @@ impl Object for ObjWriter {
     }
 }
 
+/// What an object does after one of its writes failed: 0 stops (`?`), 1 keeps writing and returns
+/// the first error at the end, 2 keeps writing and returns Ok, 3 keeps writing and returns the
+/// result of its last write, 4 stops but still writes its closing bracket before returning the error.
+/// It writes through `write_str`, `write_char`, `write!` with arguments and `pad`.
+#[derive(Debug)]
+struct ObjCont(u8);
+impl Object for ObjCont {
+    fn render(self: &Arc<Self>, f: &mut fmt::Formatter<'_>) -> fmt::Result {
+        use fmt::Write;
+        let mode = self.0;
+        let mut first: fmt::Result = Ok(());
+        let mut last: fmt::Result = Ok(());
+        for i in 0..5 {
+            let rv = match i {
+                0 => f.write_str("[p0<"),
+                1 => f.write_char('ñ'),
+                2 => write!(f, "p{}-{}", 2, "x"),
+                3 => f.pad("pad"),
+                _ => f.write_str("p4"),
+            };
+            if rv.is_err() {
+                match mode {
+                    0 => return rv,
+                    4 => {
+                        let _ = f.write_str("]");
+                        return rv;
+                    }
+                    _ => {}
+                }
+            }
+            first = first.and(rv);
+            last = rv;
+        }
+        let closing = f.write_str("]");
+        match mode {
+            1 => first.and(closing),
+            2 => Ok(()),
+            3 => closing.and(last),
+            _ => closing,
+        }
+    }
+}
+
 struct UserDisp;
 impl fmt::Display for UserDisp {
     fn fmt(&self, f: &mut fmt::Formatter<'_>) -> fmt::Result {
@@ -397,19 +440,45 @@ fn user_formatter(out: &mut minijinja::Output, state: &mut State, value: &Value)
     minijinja::escape_formatter(out, state, value)
 }
 
-/// 0: default formatter, 1: a formatter that only defers to the default one, 2: `user_formatter`
+/// A careless user formatter: it drops the errors of its own writes, keeps writing, and reports
+/// a failure of the default formatter as an error of its own kind.
+fn careless_formatter(out: &mut minijinja::Output, state: &mut State, value: &Value) -> Result<(), Error> {
+    let k = UCOUNT.with(|c| {
+        let k = c.get();
+        c.set(k + 1);
+        k
+    });
+    let _ = write!(out, "(");
+    if k % 3 == 0 {
+        let _ = out.write_str("m");
+        let _ = fmt::Write::write_char(out, 'µ');
+    }
+    let rv = minijinja::escape_formatter(out, state, value);
+    let _ = write!(out, ")");
+    match k % 4 {
+        0 => rv,
+        1 => rv.map_err(|_| Error::new(ErrorKind::InvalidOperation, "user formatter failed")),
+        2 => Ok(()),
+        _ => rv.map_err(|e| Error::new(ErrorKind::BadSerialization, "wrapped").with_source(e)),
+    }
+}
+
+/// 0: default formatter, 1: a formatter that only defers to the default one, 2: `user_formatter`,
+/// 3: `careless_formatter`
 fn fmt_mode(api: &str) -> u8 {
     if api == "fmt" {
         1
     } else if api == "ufmt" || api.starts_with("ublock:") {
         2
+    } else if api == "cfmt" {
+        3
     } else {
         0
     }
 }
 
 fn is_full(api: &str) -> bool {
-    api == "full" || api == "fmt" || api == "ufmt"
+    api == "full" || api == "fmt" || api == "ufmt" || api == "cfmt"
 }
 
 fn block_of(api: &str) -> Option<&str> {
@@ -459,6 +528,9 @@ fn base_ctx() -> std::collections::BTreeMap<String, Value> {
     put("obj_seq", Value::from_object(ObjSeq));
     put("obj_map", Value::from_object(ObjMap));
     put("obj_w", Value::from_object(ObjWriter));
+    for m in 0..5u8 {
+        put(&format!("obj_c{m}"), Value::from_object(ObjCont(m)));
+    }
     put("safe_html", Value::from_safe_string("<i>safe & sound</i>".into()));
     put("small_safe", Value::from_safe_string("<s>".into()));
     put("neg_str", Value::from("-42"));
@@ -613,6 +685,14 @@ fn fixed_programs() -> Vec<Prog> {
         pc("f45", "m.html", &[("m.html", "  {% if flag %}\n  x {{ html }}\n  {% endif %}\nlast\n")], EnvCfg { trim_blocks: true, keep_trailing_newline: true, auto_escape: 1, ..Default::default() }),
         p("f47", "w.txt", &[("w.txt", "{{ obj_w }}|{{ none }}|{% set x %}{{ obj_w }}{{ none }}{% endset %}{{ x }}|{% filter upper %}{{ obj_w }}{% endfilter %}{% for i in items %}{{ none }}{{ i }}{% endfor %}")], &[], &[]),
         p("f48", "w.html", &[("w.html", "{{ obj_w }}|{{ none }}|{{ html }}{% include \"wi.html\" %}"), ("wi.html", "{{ none }}<{{ name }}>{{ none }}")], &[], &[]),
+        // objects that keep writing after a failed write (see `ObjCont`)
+        p("f49", "c.txt", &[("c.txt", "a{{ obj_c0 }}b{{ 42 }}c")], &[], &[]),
+        p("f50", "c.txt", &[("c.txt", "a{{ obj_c1 }}b{{ 42 }}c")], &[], &[]),
+        p("f51", "c.txt", &[("c.txt", "a{{ obj_c2 }}b{{ 42 }}c")], &[], &[]),
+        p("f52", "c.txt", &[("c.txt", "a{{ obj_c3 }}b{{ 42 }}c")], &[], &[]),
+        p("f53", "c.txt", &[("c.txt", "a{{ obj_c4 }}b{{ 42 }}c")], &[], &[]),
+        p("f54", "c.txt", &[("c.txt", "{% for o in [obj_c1, obj_c2, obj_c3] %}<{{ o }}>{% endfor %}{{ [obj_c2, 1, obj_c1] }}{% include \"ci.txt\" %}"), ("ci.txt", "i{{ obj_c3 }}{% set x %}{{ obj_c2 }}{% endset %}{{ x }}j")], &[], &[]),
+        p("f55", "c.html", &[("c.html", "a{{ obj_c1 }}{{ obj_c2 }}b{{ html }}")], &[], &[]),
         pc("f46", "m.txt", &[("m.txt", "{% for i in range(3) %}{{ i }}{% include \"x.txt\" %}{% endfor %}"), ("x.txt", "({{ loop.index }})")], EnvCfg { fuel: Some(1_000_000), loader: true, ..Default::default() }),
     ]
 }
@@ -1166,6 +1246,7 @@ fn make_env(prog: &Prog, formatter: u8) -> Result<Environment<'static>, Error> {
     match formatter {
         1 => env.set_formatter(|out, state, value| minijinja::escape_formatter(out, state, value)),
         2 => env.set_formatter(user_formatter),
+        3 => env.set_formatter(careless_formatter),
         _ => {}
     }
     env.set_fuel(cfg.fuel);
@@ -1299,6 +1380,23 @@ fn log_prefix(clean: &[String], run: &[String], panicked: bool) -> Result<usize,
         return Err(run.len());
     }
     Ok(run.len())
+}
+
+/// User code may go on after a failed write: then the log continues behind the first failed write,
+/// but every later write to the base writer must fail too (the adapter is poisoned).  Returns the
+/// log cut behind the first failed write, or the position of a write that succeeded after it.
+fn cut_at_first_failure(run: &[String]) -> Result<Vec<String>, usize> {
+    match run.iter().position(|t| t.ends_with('!')) {
+        None => Ok(run.to_vec()),
+        Some(i) => {
+            for (j, t) in run.iter().enumerate().skip(i + 1) {
+                if (t.starts_with("ws:") || t.starts_with("cs:")) && !t.ends_with('!') {
+                    return Err(j);
+                }
+            }
+            Ok(run[..=i].to_vec())
+        }
+    }
 }
 
 /// (used on templates that consist of one `{{ s }}`: all writes of the root output belong to it)
@@ -1490,10 +1588,13 @@ fn model_fields(o: &Obs, clean_ops: &[String]) -> String {
         sum_bytes(&o.probe.accepted),
         digest(&o.probe.calls),
         o.res,
-        match log_prefix(clean_ops, &o.ops, o.probe.first_fail.as_deref().map(|f| f.starts_with("panic@")).unwrap_or(false)) {
+        match cut_at_first_failure(&o.ops) {
             _ if !HOOKED => "na".to_string(),
-            Ok(n) => n.to_string(),
-            Err(i) => format!("MISMATCH@{i}"),
+            Err(j) => format!("MISMATCH:write-succeeded-after-failure@{j}"),
+            Ok(cut) => match log_prefix(clean_ops, &cut, o.probe.first_fail.as_deref().map(|f| f.starts_with("panic@")).unwrap_or(false)) {
+                Ok(n) => n.to_string(),
+                Err(i) => format!("MISMATCH@{i}"),
+            },
         }
     )
 }
@@ -1526,7 +1627,7 @@ fn script_prefix(k: usize) -> String {
 
 fn scripts_for(w: usize, total: usize, rng: &mut Rng, tier: &str, with_panic: bool) -> Vec<String> {
     let mut out = vec![];
-    let cap = if tier == "thorough" { 160 } else { 48 };
+    let cap = if tier == "thorough" { 160 } else { 36 };
     let mut positions: Vec<usize> = if w <= cap {
         (0..w).collect()
     } else {
@@ -1551,6 +1652,12 @@ fn scripts_for(w: usize, total: usize, rng: &mut Rng, tier: &str, with_panic: bo
         out.push(format!("{pre}S0"));
         if with_panic {
             out.push(format!("{pre}P"));
+        }
+        // the sink keeps failing / fails and works alternately: only the first failure counts
+        if k % 2 == 0 {
+            out.push(format!("{pre}Ewb.{id}*40"));
+        } else {
+            out.push(format!("{pre}Eot.{id},A,Ebp.{},A,S0,A*3,Ewb.{}", id + 10000, id + 20000));
         }
     }
     // the engine does not flush: a sink that fails only in `flush` never fails
@@ -1595,6 +1702,9 @@ fn apis_of(prog: &Prog) -> Vec<String> {
     let mut v = vec!["full".to_string(), "fmt".to_string()];
     if prog.user_writer {
         v.push("ufmt".to_string());
+        if prog.pid.starts_with('f') {
+            v.push("cfmt".to_string());
+        }
     }
     for b in &prog.blocks {
         v.push(format!("block:{b}"));
@@ -1843,14 +1953,14 @@ fn main() {
             for prog in fixed_programs() {
                 run_program(&prog, &tier, seed, &mut out, &mut emits);
             }
-            let n = if tier == "thorough" { 1500 } else { 240 } / if sub { 3 } else { 1 };
+            let n = if tier == "thorough" { 1500 } else { 180 } / if sub { 3 } else { 1 };
             for i in 0..n {
                 let mut prog = gen_program(seed, i);
                 // the third of the generated programs that the unhooked build runs too
-                prog.user_writer = i < (if tier == "thorough" { 1500 } else { 240 }) / 3;
+                prog.user_writer = i < (if tier == "thorough" { 1500 } else { 180 }) / 3;
                 run_program(&prog, &tier, seed, &mut out, &mut emits);
             }
-            let n = if tier == "thorough" { 1500 } else { 210 } / if sub { 3 } else { 1 };
+            let n = if tier == "thorough" { 1500 } else { 150 } / if sub { 3 } else { 1 };
             for i in 0..n {
                 let prog = gen_structured(seed, i);
                 run_program(&prog, &tier, seed, &mut out, &mut emits);
